@@ -102,6 +102,21 @@ def _scenario(spec, rnd, d, logdir, res):
         return orig_call(self, fd, events)
     redirector.Redirector.Handler.__call__ = counted
     fd0_free = spec['idx'] % 3 == 1
+    # a daemon with very many descriptors open (many watchers, sockets, log files): the pipes of a writer started
+    # late get descriptor numbers above 1024
+    high_fds = spec['idx'] % 3 == 2
+    if high_fds:
+        import resource
+        soft, hard = resource.getrlimit(resource.RLIMIT_NOFILE)
+        if soft != resource.RLIM_INFINITY and soft < 4096:
+            try:
+                resource.setrlimit(resource.RLIMIT_NOFILE, (4096 if hard == resource.RLIM_INFINITY else min(hard, 4096), hard))
+            except (ValueError, OSError):
+                pass
+            soft = resource.getrlimit(resource.RLIMIT_NOFILE)[0]
+            if soft != resource.RLIM_INFINITY and soft < 2048:
+                high_fds = False
+                res.obs['scenarios_with_descriptors_above_1024_not_possible_here'] += 1
     sink = collections.defaultdict(list)
     late = collections.Counter()
     nwriters = rnd.randint(1, 6)
@@ -139,7 +154,7 @@ def _scenario(spec, rnd, d, logdir, res):
     # input was closed): its pipe gets descriptor number 0
     late_script = {ch: [[rnd.choice(SIZES[:6]), rnd.choice([0, 1, 5])] for _ in range(50)] for ch in ('stdout', 'stderr')}
     late_w = None
-    if fd0_free:
+    if fd0_free or high_fds:
         late_w = Watcher('wr_late', live.PY, args=['-S', live.WORKER, json.dumps({
             'log': logdir, 'out': {'stdout': late_script['stdout'], 'stderr': late_script['stderr']}})], numprocesses=1,
             stdout_stream={'stream': Collector('stdout', sink)}, stderr_stream={'stream': Collector('stderr', sink)},
@@ -218,11 +233,18 @@ def _scenario(spec, rnd, d, logdir, res):
         th.start()
         yield arb.start()
         if late_w is not None:
-            try:
-                os.close(0)
-                res.obs['scenarios_with_descriptor_0_free'] += 1
-            except OSError:
-                pass
+            if fd0_free:
+                try:
+                    os.close(0)
+                    res.obs['scenarios_with_descriptor_0_free'] += 1
+                except OSError:
+                    pass
+            else:
+                try:
+                    info['fillers'] = [os.open('/dev/null', os.O_RDONLY) for _ in range(1100)]
+                    res.obs['scenarios_with_descriptors_above_1024'] += 1
+                except OSError as e:
+                    res.inconclusive.append('could not open 1100 descriptors: %s' % e)
             for attempt in range(100):
                 try:
                     yield late_w.start()
